@@ -382,7 +382,7 @@ impl TypedScenario for C03E2E {
     }
     fn budget(&self, tier: Tier) -> usize {
         match tier {
-            Tier::Quick => 3000,
+            Tier::Quick => 6000,
             Tier::Thorough => 1_000_000,
         }
     }
@@ -553,7 +553,7 @@ impl TypedScenario for C03BigSid {
     }
     fn budget(&self, tier: Tier) -> usize {
         match tier {
-            Tier::Quick => 40,
+            Tier::Quick => 300,
             Tier::Thorough => 400,
         }
     }
@@ -592,7 +592,7 @@ impl TypedScenario for C03Foreign {
     }
     fn budget(&self, tier: Tier) -> usize {
         match tier {
-            Tier::Quick => 1500,
+            Tier::Quick => 4000,
             Tier::Thorough => 500_000,
         }
     }
